@@ -7,12 +7,13 @@ from .. import nodegen
 
 ID = "C01"
 SUITES = ["init", "node"]
-LEAN_MODULES = ["VpnCloud.Proofs.C01", "VpnCloud.Proofs.C01Node", "VpnCloud.Proofs.C01More"]
+LEAN_MODULES = ["VpnCloud.Proofs.C01", "VpnCloud.Proofs.C01Node", "VpnCloud.Proofs.C01More", "VpnCloud.Proofs.C01Mutual"]
 THEOREMS = ["VpnCloud.Proofs.C01." + n for n in ("readFrom_never_fatal", "readFrom_accept_genuine", "accepted_was_signed_by_trusted", "handleInit_reject_pure", "peerCrypto_reject_pure", "stale_tail_irrelevant", "success_needs_trusted_signature")] + [
             "VpnCloud.Proofs.C01Node.only_sender_becomes_peer", "VpnCloud.Proofs.C01Node.iface_creates_no_peer", "VpnCloud.Proofs.C01Node.housekeep_creates_no_peer"] + [
             "VpnCloud.Proofs.C01More." + n for n in ("peer_added_only_after_success", "new_peer_proved_trusted_key", "cfg_const", "regular_preserved", "regular_reach",
                 "new_peer_trusted_in_history", "no_reply_to_rejected", "table_changes_only_for_sender", "routes_only_from_peers", "learned_only_from_peers",
                 "routes_only_from_peers_needs_now", "learned_only_from_peers_needs_fresh")]
+THEOREMS = THEOREMS + ["VpnCloud.Proofs.C01Mutual." + n for n in ('completion_needs_mutual_trust', 'signatures_only_by_parties', 'shared_key_pair', 'ping_answered_needs_trust', 'reply_needs_acceptance', 'no_reply_without_trust', 'untrusting_side_inert', 'mutual_trust_completes', 'hash_collision_rejects', 'mutual_trust_iff', 'trusted_ping_is_answered', 'one_sided_trust_is_silent', 'retransmit_until_give_up')]
 BATCH = 20
 SEARCH_BUDGET_S = 400
 EXPECTED_CLASSES = ["ideliver:reply", "ideliver:init", "ideliver:err:crypto", "ideliver:err:parse", "ideliver:msg"]
